@@ -443,6 +443,15 @@ class Run(object):
             self.spec_mode, self.old_state, self.result_value = saved
         if env is not None:
             # spec evaluation must not have side effects; but it may allocate cells for reads
+            # and it may have named sub-terms (slice bounds, indices): the defining equations of those fresh constants are
+            # conservative and must reach the caller's path condition, or the names are unconstrained
+            known = set(str(x) for x in st.pc)
+            for f in st2.pc[len(st.pc) :] if len(st2.pc) >= len(st.pc) else []:
+                g = f
+                while g.op == "=>":
+                    g = g.args[1]
+                if g.op == "=" and g.args[0].op == "#const" and str(f) not in known:
+                    st.pc.append(f)
             st.cells.update({k: c for k, c in st2.cells.items() if k not in st.cells})
             for k, h in st2.heap.items():
                 if k not in st.heap:
@@ -862,6 +871,12 @@ class Run(object):
         st.guards.append(Not(c))
         b = self.ev(node.orelse, st)
         st.guards.pop()
+        # a test the path condition already decides selects its branch (keeps terms syntactically canonical)
+        known = set(str(x) for x in st.pc) | set(str(x) for x in st.guards)
+        if str(c) in known:
+            return a
+        if str(Not(c)) in known:
+            return b
         # `x if x is not None else d`: the optional is unwrapped on the branch on which it is proved not to be None
         if isinstance(a, OptV) and not isinstance(b, (OptV, NoneV)):
             st.guards.append(c)
@@ -1814,6 +1829,10 @@ class Run(object):
     def heap_keys_of(self, spec):
         """'f' or 'Class.f' (as in FIELDS) -> [(type, heap key)] for every declaration it names"""
         ft = self.engine.fields
+        ov = self.contract.get("fields") if self.contract else None
+        if ov:
+            ft = dict(ft)
+            ft.update(ov)
         out = []
         if spec in ft and "." not in spec:
             out.append((parse_type(ft[spec]), spec))
@@ -2023,6 +2042,11 @@ class Run(object):
         if isinstance(target, ast.Name):
             if isinstance(v, IterV):
                 raise Unsupported("binding an iterator")
+            lt = self.contract.get("locals", {}).get(target.id) if not self.engine.inline_stack else None
+            if lt and lt.startswith("obj:") and isinstance(v, ObjV):
+                # the declared class of a local is relied upon when the effects of method calls on it are computed
+                if v.cls != lt[4:] and lt[4:] not in self.engine.mro(v.cls or ""):
+                    raise Unsupported("local %s declared %s but assigned a %s" % (target.id, lt, v.cls))
             st.env[target.id] = v
             return
         if isinstance(target, ast.Attribute):
@@ -2118,9 +2142,9 @@ class Run(object):
             f = c.func
             if isinstance(f, ast.Attribute) and f.attr in ("append", "extend", "pop", "insert", "remove", "reverse", "clear", "sort"):
                 muts.add(ast.unparse(f.value))
-            # contract / inline callee effects
-            q = self.static_callee(c)
-            if q:
+            # contract / inline callee effects; a method call whose receiver class is not known statically may reach any
+            # function of that name: the union of their effects is havocked
+            for q in self.static_callees(c):
                 ct = eng.contracts.get(q)
                 r = eng.repo.func(q)
                 if ct is not None and not ct.get("inline"):
@@ -2215,11 +2239,31 @@ class Run(object):
                     r = self.engine.repo.resolve(m.imports[f.value.id] + "." + f.attr)
                     if r and r[0] == "func":
                         return r[1].name + "." + r[2]
-            # method on an object of unknown static class: try unique method name among contracts
-            cands = [q for q in self.engine.contracts if q.endswith("." + f.attr) and self.engine.repo.func(q)]
-            if len(cands) == 1:
-                return cands[0]
+                lt = self.contract.get("locals", {}).get(f.value.id) or self.contract.get("types", {}).get(f.value.id)
+                if lt and lt.startswith("obj:"):
+                    # declared class of a local / parameter (checked against the value at every assignment of the name)
+                    q = self.engine.find_method(lt[4:], f.attr)
+                    if q:
+                        return q
+                    if lt[4:] + "." + f.attr in self.engine.contracts:
+                        return lt[4:] + "." + f.attr
         return None
+
+    def static_callees(self, c):
+        q = self.static_callee(c)
+        if q:
+            return [q]
+        f = c.func
+        if isinstance(f, ast.Attribute):
+            # method on an object of unknown static class: every function of that name that has a contract or a body
+            cands = [q for q in self.engine.contracts if q.endswith("." + f.attr) and (self.engine.repo.func(q) or self.engine.contracts[q].get("external"))]
+            if not cands:
+                for mod in self.engine.repo.loaded_modules():
+                    for fq in mod.funcs:
+                        if fq.endswith("." + f.attr):
+                            cands.append(mod.name + "." + fq)
+            return sorted(set(cands))
+        return []
 
     def havoc_for_loop(self, st, body, extra_names=()):
         names, muts, fields = self.assigned_in(body)
@@ -2279,7 +2323,19 @@ class Run(object):
                 try:
                     self.havoc_target(st, o + "." + f, st.env)
                 except Unsupported:
-                    self.havoc_target(st, "heap:" + f, st.env)
+                    # the receiver is not bound at the loop head (a variable of the body): every object of its declared
+                    # class may be the one written; without a declared class, every class that has a field of that name
+                    lt = self.contract.get("locals", {}).get(o) or self.contract.get("types", {}).get(o)
+                    done = False
+                    if lt and lt.startswith("obj:"):
+                        try:
+                            ty, hk = self.field_info(lt[4:], f)
+                            self.havoc_heap_key(st, hk, ty)
+                            done = True
+                        except Unsupported:
+                            pass
+                    if not done:
+                        self.havoc_target(st, "heap:" + f, st.env)
 
     def havoc_val(self, st, v, n):
         if isinstance(v, T):
@@ -2524,6 +2580,11 @@ class Run(object):
         comps = self.exec_block(fdef.body, st)
         allowed = ct.get("raises", "nothing")
         for c in comps:
+            # in a postcondition a parameter name denotes the argument the caller passed (the object it had at entry, with
+            # whatever was done to it), never a value the body re-bound the name to: that is how call sites read it
+            for pn in names:
+                if pn in st0.env:
+                    c.st.env[pn] = st0.env[pn]
             if c.kind in ("normal", "return"):
                 val = c.value if c.kind == "return" else NONE
                 rt = ct.get("returns")
@@ -2578,7 +2639,12 @@ class Run(object):
                 continue
             for f, arr in c.st.heap.items():
                 a0 = st0.heap.get(f)
-                if a0 is None or str(a0) == str(arr):
+                if a0 is None:
+                    # the field was first touched after the entry state was taken: its entry value is the lazily created
+                    # array constant of heap_arr
+                    pre0 = st0.ghost.get("#heap_prefix", "H_")
+                    a0 = Const((pre0 + f[:-1] + "_isnone!0") if f.endswith("?") else (pre0 + f + "!0"), arr.sort)
+                if str(a0) == str(arr):
                     continue
                 if f.rstrip("?") in declared_keys:
                     continue
